@@ -383,3 +383,43 @@ fn probe_c07_rewrapped_applied_commit_triggers_rollback() {
     println!("F16 re-delivery of M: {:?}", r4.as_ref().map(|x| format!("{:?}", x).chars().take(40).collect::<String>()).map_err(|e| e.to_string()));
     println!("F16 final: epoch {}, message state {:?}", bob.get_group(&gid).unwrap().unwrap().epoch, bob.get_message(&gid, &mid).unwrap().map(|m| m.state));
 }
+
+/// F17 candidate (needs --features mip04): the same file shared twice, in two different epochs. The epoch hint is looked up by the
+/// file hash alone, so one of the two uploads gets the other's epoch; its key cannot be re-derived once the group has moved on.
+#[cfg(feature = "mip04")]
+#[test]
+fn probe_c17_same_file_shared_in_two_epochs() {
+    let (alice, bob, alice_keys, _bob_keys, gid) = two_party();
+    let data = b"the very same attachment";
+    let share = |label: &str| {
+        let m = alice.media_manager(gid.clone());
+        let up = m.encrypt_for_upload(data, "text/plain", "same.txt").unwrap();
+        let tag = m.create_imeta_tag(&up, &format!("https://example.com/{}", label));
+        let mut rumor = create_test_rumor(&alice_keys, label);
+        rumor.tags.push(tag.clone());
+        rumor.id = None;
+        let ev = alice.create_message(&gid, rumor).unwrap();
+        let _ = bob.process_message(&ev).unwrap();
+        (up, tag)
+    };
+    let advance = || {
+        let u = alice.self_update(&gid).unwrap();
+        alice.merge_pending_commit(&gid).unwrap();
+        let _ = bob.process_message(&u.evolution_event).unwrap();
+    };
+    let (up1, tag1) = share("first");
+    advance();
+    let (up2, tag2) = share("second");
+    advance();
+    advance();
+    let bm = bob.media_manager(gid.clone());
+    let r1 = bm.parse_imeta_tag(&tag1).unwrap();
+    let r2 = bm.parse_imeta_tag(&tag2).unwrap();
+    let d1 = bm.decrypt_from_download(&up1.encrypted_data, &r1);
+    let d2 = bm.decrypt_from_download(&up2.encrypted_data, &r2);
+    println!("F17 first upload decrypts: {:?}", d1.as_ref().map(|d| d.len()).map_err(|e| e.to_string()));
+    println!("F17 second upload decrypts: {:?}", d2.as_ref().map(|d| d.len()).map_err(|e| e.to_string()));
+    let am = alice.media_manager(gid.clone());
+    println!("F17 sender side: {:?} / {:?}", am.decrypt_from_download(&up1.encrypted_data, &r1).map(|d| d.len()).map_err(|e| e.to_string()),
+             am.decrypt_from_download(&up2.encrypted_data, &r2).map(|d| d.len()).map_err(|e| e.to_string()));
+}
